@@ -82,7 +82,8 @@ def hcm(reversals):
                 break
             if iz > ir:
                 j, i = res[-1], res[-2]
-                if abs(k - j) >= abs(j - i):
+                # |k-j| >= |j-i| in exact arithmetic: k reaches or passes i (the points alternate)
+                if (j > i and k <= i) or (j < i and k >= i):
                     cycles.append((i, j))
                     res.pop()
                     res.pop()
